@@ -18,6 +18,7 @@ import (
 	"testing/synctest"
 	"time"
 
+	"github.com/AdguardTeam/AdGuardHome/internal/aghos"
 	"github.com/AdguardTeam/AdGuardHome/internal/vutil"
 	"github.com/AdguardTeam/golibs/httphdr"
 	"github.com/AdguardTeam/golibs/netutil"
@@ -261,6 +262,22 @@ func (b *c12Block) exec(f []string) (out []string) {
 		handleLogout(httptest.NewRecorder(), r)
 
 		return append([]string{"ok"}, b.dump()...)
+	case "C12.dbfail":
+		// the sessions file cannot be written any more (a read-only handle
+		// stands for EIO / ENOSPC / a read-only file system) / can again
+		a := globalContext.auth
+		_ = a.db.Close()
+		var opts *bbolt.Options
+		if f[1] == "1" {
+			opts = &bbolt.Options{ReadOnly: true}
+		}
+		db, err := bbolt.Open(filepath.Join(globalContext.getDataDir(), "sessions.db"), aghos.DefaultPermFile, opts)
+		if err != nil {
+			panic(err)
+		}
+		a.db = db
+
+		return []string{"ok"}
 	case "C12.restart":
 		globalContext.auth.Close()
 		b.initUsers()
@@ -394,6 +411,17 @@ func c12Gen(r *rand.Rand, emit vutil.Emit) {
 		sleeps := []int{0, 1, sec / 2, sec - 1, sec, 10 * sec, 20 * sec, 30 * sec, 59 * sec, 60*sec - 1, 60 * sec, 60*sec + 1, 61 * sec,
 			block - sec, block - 1, block, block + 1, block + sec, block - 59*sec, ttl*sec - sec, ttl * sec, ttl*sec + sec, ttl * sec / 2,
 			86400 * sec, 86400*sec - ttl*sec, 43200 * sec}
+		extra := os.Getenv("VERIF_C12_EXTRA")
+		faults := strings.Contains(extra, "faults")
+		horizonK := 0
+		if r.IntN(25) == 0 {
+			// the uint32 horizon: start the block between 2^32-ttl-ish and
+			// 2^32+ttl seconds (the clock wraps at 2106-02-07T06:28:16Z)
+			k := vutil.Pick(r, []int{5000, 2000, ttl + 10, ttl/2 + 1, 100, 90000, 1, -ttl / 2, -ttl})
+			emit("C12.sleep", vutil.Itoa((4294967296-946684800-k)*sec))
+			horizonK = k
+		}
+		horizon := horizonK != 0
 		hot := r.IntN(len(c12Peers))
 		login := func(peer int, good bool, slot int) {
 			p := profiles[peer]
@@ -426,6 +454,17 @@ func c12Gen(r *rand.Rand, emit vutil.Emit) {
 			emit("C12.sleep", vutil.Itoa(d))
 		}
 		small := func() int { return vutil.Pick(r, []int{0, 1, sec / 2, sec, 3 * sec, 10 * sec, 20 * sec, 29 * sec}) }
+		if horizon {
+			// a session created before the clock wraps, used again after it
+			slot := r.IntN(4)
+			login(r.IntN(len(c12Peers)), true, slot)
+			emit("C12.req", vutil.Itoa(slot))
+			sleep(vutil.Pick(r, []int{horizonK*sec + sec, (horizonK + ttl + 1) * sec, (horizonK + 2*ttl) * sec, ttl*sec + sec, horizonK * sec}))
+			if r.IntN(2) == 0 {
+				emit("C12.restart")
+			}
+			emit("C12.req", vutil.Itoa(slot))
+		}
 		for seg, nseg := 0, 2+r.IntN(6); seg < nseg; seg++ {
 			switch r.IntN(6) {
 			case 0:
@@ -452,6 +491,9 @@ func c12Gen(r *rand.Rand, emit vutil.Emit) {
 				slot := r.IntN(4)
 				login(r.IntN(len(c12Peers)), true, slot)
 				for i, n := 0, 2+r.IntN(6); i < n; i++ {
+					if faults && r.IntN(5) == 0 {
+						emit("C12.dbfail", vutil.Itoa(r.IntN(2)))
+					}
 					switch r.IntN(8) {
 					case 0:
 						emit("C12.restart")
